@@ -37,7 +37,7 @@ func (f FlagSet) IsMutuallyExclusive(flag *pflag.Flag) bool {
 	if groups, ok := flag.Annotations["cobra_annotation_mutually_exclusive"]; ok {
 		for _, group := range groups {
 			for _, name := range strings.Split(group, " ") {
-				if other := f.Lookup(name); other != nil && other.Changed {
+				if other := f.Lookup(name); other != nil && other != flag && other.Changed {
 					return true
 				}
 			}
